@@ -353,6 +353,9 @@ def run_case(concepts, case, spec):
                 break
             keys.append(sub)
             r = call(ctx.__getitem__, tuple(sub))
+            if k % 3 == 1 and all(isinstance(x, str) and len(x) == 1 for x in sub):
+                call(ctx.__getitem__, ''.join(sub))      # a str is a collection of its characters
+                COL.count('str_keys')
             if k % 3 == 0:
                 call(ctx.__getitem__, gen.disguise(sub, rng), True)
             if k % 4 == 0 and r is not RAISED:
@@ -390,6 +393,8 @@ def run_case(concepts, case, spec):
     n = call(len, lat)
     for sub in keys[::2]:
         call(lat.__getitem__, tuple(sub))
+        if all(isinstance(x, str) and len(x) == 1 for x in sub):
+            call(lat.__getitem__, ''.join(sub))
         if all(x in sh.pidx for x in sub):
             call(lat, sub if rng.random() < .5 else gen.disguise(sub, rng))
     call(lat, ())
